@@ -154,6 +154,40 @@ def encodeChunks (chunks : List (List UInt8)) : EncRes (List UInt8) :=
   | .panic => .panic
   | .ok e => finish e
 
+/-- `Write::flush`: `self.inner.flush()` — forwards to the inner writer (a `Vec`: nothing to do); the carry
+    (`buffer`, `size`) is not touched and nothing is emitted -/
+def flush (e : Enc) : EncRes Enc := .ok e
+
+/-- what a caller does with the encoder before `finish` -/
+inductive EncOp where
+  | write (bytes : List UInt8)
+  | flush
+deriving Repr, DecidableEq
+
+/-- a sequence of `write` / `flush` calls -/
+def runOps (e : Enc) : List EncOp → EncRes Enc
+  | [] => .ok e
+  | .write c :: rest =>
+    match write e c with
+    | .panic => .panic
+    | .ok e' => runOps e' rest
+  | .flush :: rest =>
+    match flush e with
+    | .panic => .panic
+    | .ok e' => runOps e' rest
+
+/-- `new`, the given `write` / `flush` calls, `finish` -/
+def encodeOps (ops : List EncOp) : EncRes (List UInt8) :=
+  match runOps Enc.new ops with
+  | .panic => .panic
+  | .ok e => finish e
+
+/-- the bytes handed to `write`, in order (specification side: flushes carry no data) -/
+def written : List EncOp → List UInt8
+  | [] => []
+  | .write c :: rest => c ++ written rest
+  | .flush :: rest => written rest
+
 /-! ## the underlying reader -/
 
 structure Reader where
@@ -371,6 +405,7 @@ def showOutcome : Outcome → String
 
 /--
 * `enc <chunk>…`                 model of new / write(chunk)… / finish   → `ok <hex>` | `panic`
+* `encops <chunk|flush>…`        the same with `flush` calls in between  → `ok <hex>` | `panic`
 * `dec <text> <sched> <tail> <sizes>`   model of one `read` per size       → trace joined by `,`
 * `all <text> <sched> <tail> <sizes>`   `readAll`                           → `eof <hex>` | `error <hex>` | …
 * `spec <data>`                  `rfcEncode`                                → `<hex>`
@@ -379,6 +414,10 @@ def handle : List String → String
   | "enc" :: chunks =>
     match chunks.mapM unhex with
     | some cs => showEnc (encodeChunks cs)
+    | none => "bad-op"
+  | "encops" :: toks =>
+    match toks.mapM (fun t => if t == "flush" then some EncOp.flush else (unhex t).map EncOp.write) with
+    | some ops => showEnc (encodeOps ops)
     | none => "bad-op"
   | ["dec", t, s, tl, z] =>
     match unhex t, natList? s, tl.toNat?, natList? z with
